@@ -229,6 +229,9 @@ pub fn drive<L: Lx>(lexer: L, req: &Req) {
     let mut lexers: Vec<(L, usize, usize, usize)> = vec![(lexer, 0, max_calls, 0)]; // lexer, calls made, budget, nones
     let mut sched = req.sched.iter().copied();
     let mut turn = 0usize;
+    // (items yielded before the call, lower, upper) of every size_hint() taken, per lexer
+    let mut hints: Vec<Vec<(usize, usize, Option<usize>)>> = Vec::new();
+    let mut somes: Vec<usize> = Vec::new();
     loop {
         if req.clone_at >= 0 && lexers.len() == 1 && lexers[0].1 == req.clone_at as usize {
             let c = lexers[0].0.clone();
@@ -255,9 +258,19 @@ pub fn drive<L: Lx>(lexer: L, req: &Req) {
         // Before the clone point only the original exists.
         let pick = if live.contains(&want) { want } else { live[0] };
         CUR.with(|c| c.set(pick as i64));
+        // The lexer is an Iterator: adaptors such as collect() / extend() ask for a size hint
+        // between calls, so the harness does too (a panic in it is a panic of the lexer).
+        let hint = lexers[pick].0.size_hint();
+        while hints.len() <= pick {
+            hints.push(Vec::new());
+            somes.push(0usize);
+        }
+        hints[pick].push((somes[pick], hint.0, hint.1));
         let item = lexers[pick].0.next();
         if item.is_none() {
             lexers[pick].3 += 1;
+        } else {
+            somes[pick] += 1;
         }
         {
             let (st, ini, dn) = lexers[pick].0.regs();
@@ -271,6 +284,22 @@ pub fn drive<L: Lx>(lexer: L, req: &Req) {
         }
         push_item(&item);
         lexers[pick].1 += 1;
+    }
+    // Iterator contract of the hints, for lexers that were run to their final None: the number
+    // of items that followed must lie within the bounds given.
+    for (i, hs) in hints.iter().enumerate() {
+        if lexers[i].3 == 0 {
+            continue;
+        }
+        for (before, lo, hi) in hs {
+            let remaining = somes[i] - before;
+            if *lo > remaining || hi.map_or(false, |h| h < remaining) {
+                CUR.with(|c| c.set(i as i64));
+                push(json!({"k": "P", "msg": format!(
+                    "size_hint() = ({}, {:?}) but {} items followed", lo, hi, remaining)}));
+                break;
+            }
+        }
     }
     for (i, (l, _, _, _)) in lexers.iter_mut().enumerate() {
         CUR.with(|c| c.set(i as i64));
